@@ -1,7 +1,8 @@
 From Coq Require Import Extraction ExtrOcamlBasic.
 From QV Require Import Model.NameWire Model.Reader Model.RdataLite Model.Server Spec.NameWireS Spec.NameRepr
-  Model.ZoneTree Model.Query Model.MsgWriter Model.QueryW Model.ServerW Spec.MsgWriterS.
+  Model.ZoneTree Model.Query Model.MsgWriter Model.QueryW Model.ServerW Spec.MsgWriterS Model.CatTree Model.ServerCat.
 Extraction Language OCaml.
 Separate Extraction handle_message_w handle_message name_key wire_labels lower_labels tsig_alg_len get16 alg_name_wire
   parse_uncompressed_name spec_decode_name name_of
-  zone_new zone_build req_simple answer_rec labels_of neg_ttl respond_w respond_plain decode_msg.
+  zone_new zone_build req_simple answer_rec labels_of neg_ttl respond_w respond_plain decode_msg
+  tree_of_history flat_of_tree.
